@@ -189,7 +189,10 @@ def run_check(prop, tier, seed):
     obligations = discharged = 0
     try:
         # ---- build + theorem recheck + source gate ------------------------------
-        ok, log = coqrun.ensure_build()
+        targets = [t for t in [prop.props_file, prop.refuted_file] if t]
+        for st in prop.streams.values():
+            targets += [r.replace(".", "/") + ".v" for r in st["requires"]]
+        ok, log = coqrun.ensure_build(sorted(set(targets)))
         if not ok:
             failures.append({"kind": "theorem", "detail": "development does not build", "log": log})
         gate = coqrun.source_gate()
